@@ -110,6 +110,8 @@ def run(chk, replay=None):
             "PKCS#7 validity for buffers longer than 255 bytes is the structural rule (Unpad takes no block size)",
             "GPP passwords: well-formed Unicode strings (scalar values) over a 14-code-point alphabet incl. U+0000, BMP edge, astral plane",
         ]
+        # ---- the same entry points called by 8 goroutines at once (race-detector build): results as when called alone
+        vlib.parallel_callers(chk, "crypto")
     finally:
         shutil.rmtree(d, ignore_errors=True)
 
